@@ -23,7 +23,7 @@ pub const INFO: PropInfo = PropInfo {
         "all atomics involved are SeqCst, so interleaving at the six scheduling points is complete for this protocol (DESIGN.md 2.5)",
         "the oracle names no deadline while sessions are still running; every session ends by itself (client closes, or keep-alive timeout)",
     ],
-    expected_probes: &["c18.signal_during_first_poll", "c18.signal_between_checked_and_published", "c18.sessions_in_flight_at_signal", "c18.late_connect_refused", "c18.second_signal", "c18.slow_handler_finished_after_signal", "c18.spinner_rule_engaged", "c18.signal_with_no_sessions", "c18.session_ended_by_panic", "c18.sse_stream_in_flight", "c18.accept_failed", "c18.connect_attempt_after_handler_returned"],
+    expected_probes: &["c18.signal_during_first_poll", "c18.signal_between_checked_and_published", "c18.sessions_in_flight_at_signal", "c18.late_connect_refused", "c18.second_signal", "c18.slow_handler_finished_after_signal", "c18.spinner_rule_engaged", "c18.signal_with_no_sessions", "c18.session_ended_by_panic", "c18.sse_stream_in_flight", "c18.accept_failed", "c18.connect_attempt_after_handler_returned", "c18.keepalive_timeout_raised", "c18.session_in_flight_more_than_45s_after_the_interrupt"],
 };
 
 #[derive(Clone, Debug, Serialize, Deserialize)]
@@ -61,9 +61,15 @@ pub struct Scenario {
     /// fault: `accept` fails at these instants (ms); 0 ConnectionAborted, 1 "too many open files"
     #[serde(default)]
     pub accept_errors: Vec<(u64, u8)>,
+    /// tuning knob: `OHKAMI_KEEPALIVE_TIMEOUT` for this run (None = the default of 42 s). A session may then legitimately
+    /// be in flight for minutes after the interrupt
+    #[serde(default)]
+    pub keepalive_s: Option<u64>,
 }
 
 pub fn generate(_cfg: &RunCfg, _out: &mut Outcome) -> Scenario {
+    let keepalive_s = if t::chance(1, 5) { Some(t::pick(&[120u64, 300])) } else { None };
+    let long = keepalive_s.is_some();
     let n = t::weighted(&[2, 3, 3, 2, 1, 1, 1]);
     let sigint_ms = t::pick(&[0u64, 0, 1, 2, 5, 30, 400, 3000]);
     let clients = (0..n)
@@ -77,6 +83,7 @@ pub fn generate(_cfg: &RunCfg, _out: &mut Outcome) -> Scenario {
             let kind = match t::weighted(&[4, 3, 2, 2, 2, 2, 2]) {
                 6 => ClientKind::Sse { n: t::range(0, 5), gap_ms: t::pick(&[0u64, 1, 200, 4000]) },
                 5 => ClientKind::Panic { delay_ms: t::pick(&[0u64, 1, 50, 2000]) },
+                0 if long => ClientKind::Slow { delay_ms: t::pick(&[2000u64, 20_000, 44_000, 46_000, 60_000, 100_000]) },
                 0 => ClientKind::Slow { delay_ms: t::pick(&[0u64, 1, 50, 2000, 20_000]) },
                 1 => ClientKind::Fast,
                 2 => ClientKind::Idle { close_after_ms: t::pick(&[1u64, 100, 5000, 60_000]) },
@@ -92,7 +99,7 @@ pub fn generate(_cfg: &RunCfg, _out: &mut Outcome) -> Scenario {
     } else {
         Vec::new()
     };
-    Scenario { clients, sigint_ms, second_sigint_after_ms: if t::chance(1, 5) { Some(t::pick(&[0u64, 1, 100, 10_000])) } else { None }, server_first: !due_at_start && t::chance(1, 2), due_at_start, accept_errors }
+    Scenario { clients, sigint_ms, second_sigint_after_ms: if t::chance(1, 5) { Some(t::pick(&[0u64, 1, 100, 10_000])) } else { None }, server_first: !due_at_start && t::chance(1, 2), due_at_start, accept_errors, keepalive_s }
 }
 
 pub fn run(cfg: &RunCfg, direct: Option<&serde_json::Value>) -> Outcome {
@@ -168,6 +175,10 @@ fn execute(sc: &Scenario, out: &mut Outcome) {
     out.scenario = serde_json::to_value(sc).unwrap_or(serde_json::Value::Null);
     out.scenario_hash = rt::fnv64(serde_json::to_string(sc).unwrap_or_default().as_bytes());
     signal::reset();
+    if let Some(k) = sc.keepalive_s {
+        rt::set_keepalive_timeout(k);
+        out.probe("c18.keepalive_timeout_raised");
+    }
     FIRST_DELIVERY_STEP.with(|f| f.set(None));
     FIRST_HANDLER_DONE_AT.with(|f| f.set(None));
 
@@ -321,7 +332,8 @@ fn execute(sc: &Scenario, out: &mut Outcome) {
                         ob.sent_complete_request = true;
                         ob.expected_responses = 1;
                     }
-                    let r = c.recv(false, DEFAULT_TIMEOUT).await;
+                    // a patient client: the handler may sleep for longer than the default time-out
+                    let r = c.recv(false, DEFAULT_TIMEOUT + delay_ms * MS).await;
                     o.borrow_mut().results.push(r);
                 }
                 ClientKind::Fast => {
@@ -555,6 +567,9 @@ fn execute(sc: &Scenario, out: &mut Outcome) {
             if let ClientKind::Slow { delay_ms } = plan.kind {
                 if delay_ms >= 2000 {
                     out.probe("c18.slow_handler_finished_after_signal");
+                }
+                if plan.start_ms + delay_ms > sc.sigint_ms + 45_000 && plan.start_ms <= sc.sigint_ms {
+                    out.probe("c18.session_in_flight_more_than_45s_after_the_interrupt");
                 }
             }
         }
